@@ -23,6 +23,14 @@ CLAIMED = {
          "as C01."),
  "C16": ("7 C16", "Seeded search with the enable feature on over non-recording handles (roots before a reporter exists, spans derived from no-op spans, local operations without a local parent) given counting property closures; oracle: closure invocation counts equal the model's (0 for non-recording, exactly 1 for recording), no record for non-recording handles, elapsed/from_span/current_local_parent None for them. The enable-less build is checked separately (see DESIGN).",
          "as C01; for unsampled recording handles 0 or 1 invocation is accepted (the property does not speak about them)."),
+ "C13": ("7 C13", "Seeded search over scripted futures (each poll runs generated recording operations, then returns Pending or Ready) wrapped with in_span(span) (span a root or a child), enter_on_poll(name) or both, polled by generated threads (migration), dropped before completion or kept alive after it, both configurations, collector cycles placed atomically at every queue operation (incl. between the commit and the guard drop of the completing poll) and pre-emptively; oracle: every context probe inside and between polls equals the model, the span's duration ends inside the completing poll or the drop, everything the last poll recorded is in the trace (cancelable: in the root's report call; attachments present under atomic cycles), enter_on_poll yields one span per poll that covers what the poll recorded.",
+         "as C01; the async executor is the harness (no-op waker, generated Poll operations); per-poll span instances of enter_on_poll share one name, so parent checks against an undelivered instance are skipped."),
+ "C14": ("7 C14", "Same engine and oracle as C13 with scripted Stream and Sink objects wrapped by fastrace-futures' in_span: local parent during every poll_next/poll_ready/start_send/poll_flush/poll_close and restored afterwards, span finished exactly at Ready(None) / completed poll_close / drop, the last call's recordings part of the delivered trace.",
+         "as C13."),
+ "C17": ("7 C17", "Seeded search over detached local-span forests (events, properties, spans left open at collection) pushed to 1..5 parents in different traces, threads and cycles, with wall-clock steps between cycles, and converted with to_span_records; oracle: all delivered copies of a set are equal after erasing the top-level parent and making times relative (ids, names, properties, events, durations), to_span_records equals what a push delivers, spans open at collection end exactly at the collection instant. Two copies inside one trace are the known finding D8.",
+         "as C01; absolute times are compared up to the clock anchor of the conversion, as the property states."),
+ "C18": ("7 C18", "Seeded search with large Advance gaps, atomic cycles anywhere (each with its own anchor) and wall-clock steps between cycles; oracle from the simulated clock's read log: every record's duration equals a clock read of its finish operation minus a clock read of its start operation, begin times lie in the run's wall-clock window, local spans nest inside their enclosing local span, siblings do not overlap, event timestamps lie inside their local span, Span::elapsed() equals now minus start and is None for non-recording spans.",
+         "fastant (TSC calibration) is replaced by the simulated clock: the property is about which instants fastrace stamps and how it converts them, and that code is real."),
 }
 NOT_APPLICABLE = {
  "C12": "Pure function of one string / one SpanContext: no thread, clock, I/O, fault or interleaving for a simulator to control; input generation alone would be property-based testing, a different technique family (DESIGN §8).",
